@@ -602,10 +602,9 @@ def _agg(g, scale):
         g.count("agg:sparse3")
     # very long lists (more members than a 16-bit counter holds)
     g.emit("# group agg fixed-long-lists")
-    for n in ([1, 1000, 65536, 65537, 70000] if True else []):
-        k1 = g.r.choice([3, 30000, 40001])
+    for n, k1 in [(1, 3), (1000, 30000), (65536, 40001), (65537, 30000), (65537, 7), (70000, 2), (131073, 50000)]:
         for fn, w in [("parheapor", 1), ("parand", 3), ("paror", 2), ("fastor", 0), ("fastand", 0), ("heapor", 0)]:
-            if n > 1000 and fn in ("heapor",) and g.r.random() < 0.5:
+            if n > 1000 and fn in ("heapor", "fastor", "fastand") and (n, k1) != (65537, 30000):
                 continue
             g.emit("aggmany %s %d %d %d %d" % (fn, w, n, k1, k1 + 1))
         g.count("agg:long-list")
